@@ -72,7 +72,8 @@ def gen_plan(seed: int, tier: str) -> dict:
         services.append({"type": TYPES[k % len(TYPES)], "iid": iids[k], "chars": chars, "linked": r.sample(others, min(n_link, len(others))),
                          "primary": r.random() < 0.3, "hidden": r.random() < 0.2, "sig_iid": next_char_iid})
         next_char_iid += 1
-    return {"mode": "ble", "services": services, "mtu": r.choice([23, 100, 158, 247, 512]), "policy": r.choice(["max", "max", "header_only_first", "random"]), "ops": []}
+    return {"mode": "ble", "services": services, "mtu": r.choice([23, 100, 158, 247, 512]), "policy": r.choice(["max", "max", "header_only_first", "random"]), "ops": [],
+            "write_lens": r.sample([0, 1, 254, 255, 256, 509, 510, 511, 765, 766], r.choice([0, 1, 2, 3]))}
 
 
 def gen_coap(r: random.Random) -> dict:
@@ -110,6 +111,8 @@ def build_services(plan) -> list[ba.GService]:
             chars.append(ba.GChar(c["type"] + ba.BASE, c["iid"], c["fmt"], perms=tuple(c["perms"]), value=c["value"], unit=c["unit"], minv=c.get("min"), maxv=c.get("max"),
                                   step=c.get("step"), description=c["desc"], disconnected=c["disconnected"], broadcast=c["broadcast"]))
         extra.append(ba.GService(s["type"] + ba.BASE, s["iid"], chars, linked=list(s["linked"]), primary=s["primary"], hidden=s["hidden"]))
+    # one writable string characteristic for BleRequest bodies whose value field has a boundary length
+    extra.append(ba.GService("000000F8" + ba.BASE, 9000, [ba.GChar("000000F9" + ba.BASE, 9001, "string", perms=("pr", "pw"), value="w")]))
     return ba.standard_services(extra)
 
 
@@ -226,6 +229,31 @@ def execute(plan: dict, ch: Chooser) -> dict:
                         ctx.violate("entity-map-differs", "char-value", f"characteristic iid {ch_.iid} ({ch_.fmt}): value {gc.value!r} != {ch_.value!r}")
         if acc.protocol_errors:
             ctx.violate("request-not-canonical", "", f"reference accessory: {acc.protocol_errors[:2]}")
+        # BleRequest structs on the send path: a value field of a boundary length must reach the strict peer decoder canonically
+        for vlen in plan.get("write_lens", []):
+            n0 = len(acc.protocol_errors)
+            try:
+                # twice: through put_characteristics (plain value TLV) and through client.char_write, which wraps the body in the
+                # BleRequest struct (return-response flag + value field of exactly vlen bytes)
+                await p.put_characteristics([(1, 9001, "u" * vlen)])
+                from aiohomekit.controller.ble.client import char_write
+
+                await p._populate_accessories_and_characteristics()
+                if vlen:  # (an empty value field is omitted by the struct encoder; char_write is never used with one)
+                    async with p._ble_request_lock:
+                        handle = await p.client.get_characteristic("000000F8" + ba.BASE, "000000F9" + ba.BASE, 9001)
+                        await char_write(p.client, p._encryption_key, p._decryption_key, handle, 9001, b"v" * vlen)
+            except Exception as e:  # noqa: BLE001
+                ctx.violate("ble-request-failed", type(e).__name__, f"writing a {vlen}-byte string failed: {e!r}; accessory says {acc.protocol_errors[n0:n0 + 2]}")
+                break
+            ctx.obligations += 1
+            ctx.probe("ble_requests_with_boundary_value")
+            if acc.protocol_errors[n0:]:
+                ctx.violate("request-not-canonical", "ble-request-value", f"BleRequest with a {vlen}-byte value: reference accessory: {acc.protocol_errors[n0:n0 + 2]}")
+                break
+            if acc.find_char(9001).value != ("v" if vlen else "u") * vlen:
+                ctx.violate("ble-request-value-differs", "", f"accessory holds {len(str(acc.find_char(9001).value))} bytes after a {vlen}-byte write")
+                break
         ctx.event("fetched", len(services), sum(len(s.chars) for s in services), [len(s.linked) for s in services])
         ctx.state(plan["mtu"], plan["policy"], max(len(s["linked"]) for s in plan["services"]))
         await p.shutdown()
